@@ -70,6 +70,9 @@ def replay_abstract(e, real_t, via, rng):
         sim.dx = real_t(float(h))
         sim.cfl = float(cfl)
         sim.kinematic_viscosity = float(nu)
+        if hasattr(sim, "flow_density"):
+            # the recommended step does not depend on the density: any admissible value must give the same dt
+            sim.flow_density = float(rng.choice([0.25, 1.0, 3.0, 0.5]))
         sim.velocity_field[...] = vel
         got = sim.compute_stable_timestep(dt_prefac=float(pf))
     eps = float(np.finfo(real_t).eps)
@@ -89,9 +92,11 @@ def get_sim(kind, D, shape, real_t):
         if kind == "passive":
             _SIMS[key] = sps.PassiveTransportFlowSimulator(kinematic_viscosity=1.0, grid_dim=D, grid_size=shape, x_range=xr, real_t=real_t)
         elif D == 2:
-            _SIMS[key] = sps.UnboundedNavierStokesFlowSimulator2D(grid_size=shape, x_range=xr, kinematic_viscosity=1.0, real_t=real_t)
+            _SIMS[key] = sps.UnboundedNavierStokesFlowSimulator2D(grid_size=shape, x_range=xr, kinematic_viscosity=1.0, real_t=real_t,
+                                                                  flow_density=0.25, with_forcing=True)
         else:
-            _SIMS[key] = sps.UnboundedNavierStokesFlowSimulator3D(grid_size=shape, x_range=xr, kinematic_viscosity=1.0, real_t=real_t)
+            _SIMS[key] = sps.UnboundedNavierStokesFlowSimulator3D(grid_size=shape, x_range=xr, kinematic_viscosity=1.0, real_t=real_t,
+                                                                  flow_density=3.0, with_forcing=True, filter_vorticity=True)
     return _SIMS[key]
 
 
